@@ -4,6 +4,7 @@
 #include "fsweep.h"
 #include <iostream>
 #include <sstream>
+#include <functional>
 
 using namespace iprv;
 
@@ -24,9 +25,39 @@ template<class R> static std::string dump_result(const R& r)
    }
 }
 
+// ---- every result is remembered so that the history mode (C05) can re-observe it later ----
+struct Remembered {
+   std::string key, args, first;              // how it was made, and what was observed when it was made
+   const void* addr = nullptr;                // identity at creation
+   std::function<const void*()> where;        // identity now
+   std::function<std::string()> redump;       // observation now
+   bool container = false;                    // a node that legitimately gains members later
+};
+inline std::vector<Remembered>& remembered() { static std::vector<Remembered> v; return v; }
+inline bool& history_mode() { static bool b = false; return b; }
+
+template<class T> void remember_obj(const std::string& key, const std::string& args, const T& obj, const std::string& first, bool container = false)
+{
+   Remembered m;
+   m.key = key; m.args = args; m.first = first; m.container = container;
+   const T* p = &obj;
+   m.addr = ident(obj);
+   m.where = [p] { return ident(*p); };
+   m.redump = [p] { self_ptr() = ident(*p); auto s = guarded([&] { return dump(as_iface(*p)); }); self_ptr() = nullptr; return s; };
+   remembered().push_back(std::move(m));
+}
+
+template<class R> void remember(const char* key, const std::string& args, R&& r, const std::string& first)
+{
+   using U = std::remove_reference_t<R>;
+   if constexpr (std::is_pointer_v<U>) { if (r != nullptr) remember_obj(key, args, *r, first); }
+   else if constexpr (std::is_lvalue_reference_v<R>) remember_obj(key, args, r, first);
+}
+
 #define SWEEP(KEY, ARGS, CALL) \
-   { std::string d = guarded([&] { auto&& r = CALL; return dump_result(r); }); \
-     std::printf("F %s args=%s :: %s\n", KEY, ARGS.c_str(), d.c_str()); }
+   { std::string d = guarded([&] { decltype(auto) r = CALL; auto s = dump_result(r); \
+                                   if (history_mode()) remember<decltype(CALL)>(KEY, ARGS, static_cast<decltype(CALL)>(r), s); return s; }); \
+     if (not history_mode()) std::printf("F %s args=%s :: %s\n", KEY, ARGS.c_str(), d.c_str()); }
 
 static inline long U(long i, long n) { return ((i % n) + n) % n; }
 
